@@ -860,11 +860,33 @@ def _material_bounds(h1, h2, hc, scale):
     return out
 
 
+def _set_ctrl(r, hc, scale):
+    """Move the absorber of the control assembly with the real Block.setHeight (total height kept)."""
+    a = [x for x in r.core if x.getType() == "primary control"][0]
+    for b, h in zip(a, hc):
+        b.setHeight(h * scale)
+
+
+def _gen_build(case):
+    from mcverif import build
+
+    csd = build.settings(detailedAxialExpansion=True)
+    if case.get("ctrl_via_setheight"):
+        r = build.reactor(_core_spec(case["h1"], case["h2"], [2, 2, 2], case["scale"]), cs=csd)
+        _set_ctrl(r, case["hc"], case["scale"])
+        return r
+    return build.reactor(_core_spec(case["h1"], case["h2"], case["hc"], case["scale"]), cs=csd)
+
+
 @total("gen")
 def _gen_one(acc, case):
+    _gen_judge(acc, _gen_build(case), case)
+
+
+@total("gen")
+def _gen_judge(acc, r, case):
     import numpy as np
     from armi.reactor.converters import uniformMesh as um
-    from mcverif import build
 
     h1, h2, hc, scale = case["h1"], case["h2"], case["hc"], case["scale"]
     meshes = [M.tops(h, scale) for h in (h1, h2, hc) if h]
@@ -874,8 +896,6 @@ def _gen_one(acc, case):
     fuel_lo = min(lo for lo, _hi in bnds["fuel"])
     fuel_hi = max(hi for _lo, hi in bnds["fuel"])
     mb = set(x for pairs in bnds.values() for pair in pairs for x in pair)
-    csd = build.settings(detailedAxialExpansion=True)
-    r = build.reactor(_core_spec(h1, h2, hc, scale), cs=csd)
     got_meshes = sorted([float(x) for x in a.getAxialMesh()] for a in r.core)
     if got_meshes != sorted(meshes):
         raise Precondition("generator precondition: core meshes %s, wanted %s" % (got_meshes, meshes))
@@ -1033,6 +1053,26 @@ def _convert_roundtrip(acc, case, h1, h2, hc, scale, m, mesh):
 def _eval_gen(case):
     acc = Acc()
     _gen_one(acc, case)
+    return acc
+
+
+def ctrl_variants(H):
+    """(bottom, top) of the absorber over the integer candidates 1..H-1 and those +-0.4 (so that control
+    boundaries fall within less than the minimum of the fuel boundaries on both sides, and onto them)."""
+    vals = sorted(p + d for p in range(1, H) for d in (0.0, -0.4, 0.4))
+    return [[zb, zt] for zb in vals for zt in vals if zt - zb > 0.1]
+
+
+def _eval_genctl_batch(item):
+    """One core (built once), the absorber column of its control assembly moved through every variant."""
+    acc = Acc()
+    H = item["H"]
+    base = {"kind": "gen", "h1": item["h1"], "h2": item["h2"], "scale": item["scale"], "mins": item["mins"], "convert": [], "ctrl_via_setheight": True}
+    r = _gen_build(dict(base, hc=[2, 2, 2]))
+    for zb, zt in item["variants"]:
+        hc = [zb, zt - zb, H - zt]
+        _set_ctrl(r, hc, item["scale"])
+        _gen_judge(acc, r, dict(base, hc=hc))
     return acc
 
 
@@ -1339,6 +1379,7 @@ _EVAL = {
     "setmesh_batch": _eval_setmesh_batch,
     "gen": _eval_gen,
     "gen_batch": _eval_gen_batch,
+    "genctl_batch": _eval_genctl_batch,
     "filter": _eval_filter,
     "filter1": _eval_filter1,
     "resample": _eval_resample,
@@ -1405,6 +1446,11 @@ def cases(ctx):
         for h1 in gcomps:
             for h2 in gcomps:
                 items.append({"kind": "gen_batch", "h1": h1, "h2": h2, "hcs": hcs, "scale": scale, "mins": mins, "convert": [None] if h1 <= h2 else [], "convert_for": [hcs[0]]})
+    # gen with the control absorber moved over every candidate position (cores built once per fuel pair)
+    variants = ctrl_variants(B["H_gen"])
+    for i, h1 in enumerate(gcomps):
+        for h2 in (h1, gcomps[(7 * i + 3) % len(gcomps)]):
+            items.append({"kind": "genctl_batch", "h1": h1, "h2": h2, "H": B["H_gen"], "scale": scale, "mins": mins, "variants": variants})
     # filter
     n = B["filter_points"]
     fpts = [p * scale for p in range(n)]
@@ -1433,7 +1479,7 @@ def run(ctx):
     for it, r in zip(items, res):
         ev += r["n"]
         nt += r["nt"]
-        k = it["kind"].replace("_batch", "")
+        k = it["kind"].replace("_batch", "").replace("genctl", "gen")
         per_kind[k] = per_kind.get(k, 0) + r["n"]
         ctx.count("items_" + k)
         for name, n in r["cnt"].items():
